@@ -94,7 +94,8 @@ def load_known():
 def run_property(prop, rules, tier, seed, level_text, assumptions):
     """Run the rules of one property, print the verdict protocol, write evidence, return exit code."""
     t0 = time.time()
-    ev_path = os.path.join(VERIF, "evidence", prop + ".json")
+    evdir = os.environ.get("VERIF_EVIDENCE_DIR") or os.path.join(VERIF, "evidence")
+    ev_path = os.path.join(evdir, prop + ".json")
     os.makedirs(os.path.dirname(ev_path), exist_ok=True)
     try:
         os.remove(ev_path)
@@ -123,7 +124,7 @@ def run_property(prop, rules, tier, seed, level_text, assumptions):
                 knowns.append((v, known_keys[fk]))
             else:
                 viols.append(v)
-    rdir = os.path.join(VERIF, "evidence", "replay")
+    rdir = os.path.join(evdir, "replay")
     os.makedirs(rdir, exist_ok=True)
     for v, k in knowns:
         print("KNOWN-FINDING: property=%s %s [%s] %s:%s" % (prop, k.get("what", v.msg), v.fullkey(prop), v.file, v.line))
